@@ -432,6 +432,15 @@ def run_b(case):
                 elif case.get('rset_delay') and not case['faults'].get(tag) and not case['faults'].get(tag + 'b'):
                     # late-RSET family: nothing is scripted to go wrong for this message, and it travels on a fresh connection
                     out.append(('C19:unexplained-failure', '%s: %s -> %r' % (desc, tag, res.reply)))
+        # every attempt receives the result of its *own* envelope: a message the peer took (250 after end-of-data) cannot
+        # come back as failed (all replies are sent well within the timeouts)
+        taken = set(arg for conn, ev, arg in log if ev == 'EOD' and case['faults'].get(arg) != 'eod4xx')
+        for tag, g, o in outs:
+            kind, res = o.get()
+            rep = (list(res.values())[0] if isinstance(res, dict) else res) if kind == 'ok' else res
+            if isinstance(rep, RelayError) and tag in taken and not out:
+                out.append(('C19:failure-reported-for-accepted-message', '%s: the peer accepted %s with 250, its attempt got %r'
+                            % (desc, tag, rep.reply)))
         if case.get('after_ehlo') and nconn[0] > 4 * n + 4:
             out.append(('C19:reconnect-storm', '%s: %d connections were made for %d attempts' % (desc, nconn[0], n)))
         if case['size'] and DelayPeer.max_open > case['size']:
@@ -510,7 +519,16 @@ def run_http(case):
                     out = 'HTTP/1.1 503 Busy\r\nX-Smtp-Reply: 451; message="4.3.0 failed %s"\r\nContent-Length: 0\r\n\r\n' % tag
                 else:
                     out = 'HTTP/1.1 200 OK\r\nX-Smtp-Reply: 250; message="2.0.0 queued %s"\r\nContent-Length: 2\r\n\r\nok' % tag
-                sock.sendall(out.encode())
+                if case.get('bodysplit') and fault != 'eod4xx':
+                    sock.sendall(out[:-2].encode())          # the body arrives in a later segment than the headers
+                    # (a client that does not keep the connection may close it once it has the headers; this side only
+                    #  notices after the pause, so the connection is not counted as open meanwhile)
+                    state['open'] -= 1
+                    gevent.sleep(case['bodysplit'])
+                    state['open'] += 1
+                    sock.sendall(out[-2:].encode())
+                else:
+                    sock.sendall(out.encode())
                 if not case['keepalive']:
                     return
         except Exception:
@@ -579,7 +597,7 @@ def case_http(draw):
             faults['m%d' % i] = f
     return {'family': 'H', 'n': n, 'size': draw(st.sampled_from([1, 2, 3, None])), 'idle': draw(st.sampled_from([None, 0.05, 1.0])),
             'keepalive': draw(st.booleans()), 'delay': draw(st.sampled_from([0.0, 0.001, 0.005])),
-            'stagger': draw(st.sampled_from([0.0, 0.002, 0.02])), 'faults': faults}
+            'stagger': draw(st.sampled_from([0.0, 0.002, 0.02])), 'faults': faults, 'bodysplit': draw(st.sampled_from([0, 0, 0.01, 0.03]))}
 
 
 @st.composite
@@ -636,6 +654,15 @@ def run_shard(ctx):
                     if ctx.mine(k):
                         one_b({'family': 'B', 'n': n, 'size': size, 'idle': 1.0, 'pipelining': pipelining, 'delay': 0.0, 'stagger': 0.0,
                                'faults': {}, 'refuse': [], 'after_ehlo': after})
+
+    # the peer drops the connection (421 / plain close) while it is idle between two messages
+    for fault in ('then421', 'thenclose'):
+        for size in (1, None):
+            for pipelining in (True, False):
+                k += 1
+                if ctx.mine(k):
+                    one_b({'family': 'B', 'n': 3, 'size': size, 'idle': 1.0, 'pipelining': pipelining, 'delay': 0.0, 'stagger': 0.03,
+                           'faults': {'m0': fault}, 'refuse': []})
 
     def one_h(case):
         f, nt = run_http(case)
